@@ -9,8 +9,9 @@
 //!
 //! Verdict: the call-level predicates on the real history (same monitor as `shm`, in
 //! single-context mode: the numbers of a channel's successful seals are 0, 1, 2, ... across
-//! contexts, no second live seal context, removal effective, no lost channel) and the tracking
-//! allocator (channel data touched after free / freed twice / leaked).
+//! contexts, no second live seal context, removal effective, no lost channel).  The tracking
+//! allocator's findings on the channel data (touched after free / freed twice / leaked) are
+//! C44's predicate: keyed `C44:*`, reported only when the `only` filter admits them.
 use std::{
     collections::BTreeMap,
     sync::{Arc, Mutex},
@@ -112,10 +113,10 @@ impl Control for Ctl {
                     sh.mailbox[tid] = Some(op);
                 }
             } else if *s < 128 && *a != 0 && alloc::is_freed(*a) {
-                return Some((
-                    "C41:use-after-free".into(),
-                    format!("thread {tid} is about to access channel data at site {s} after it was freed"),
-                ));
+                // memory safety of the channel data is C44's predicate (reported when `only` allows)
+                let mut sh = self.sh.lock().unwrap();
+                sh.mon.flag("C44:use-after-free", format!("thread {tid} is about to access channel data at site {s} after it was freed"));
+                return sh.mon.fail.clone();
             }
         }
         None
@@ -160,7 +161,7 @@ impl Control for Ctl {
         let r = alloc::report();
         let mut sh = self.sh.lock().unwrap();
         if r.double_free > 0 {
-            sh.mon.flag("C41:double-free", format!("channel data freed twice ({r:?})"));
+            sh.mon.flag("C44:double-free", format!("channel data freed twice ({r:?})"));
         }
         sh.mon.fail.clone()
     }
@@ -369,8 +370,8 @@ fn replay(b: &Value, rng: &mut vrt::Rng, only: &str) -> (Outcome, Vec<Event>) {
     drop(state);
     let rep = alloc::reset();
     let mut o = o;
-    if o.fail.is_none() && rep.live_marked > 0 && (only.is_empty() || only == "C41") {
-        o.fail = Some(("C41:leak".into(), format!("channel data still allocated after the state and every context are gone ({rep:?})")));
+    if o.fail.is_none() && rep.live_marked > 0 && (only.is_empty() || only == "C44") {
+        o.fail = Some(("C44:leak".into(), format!("channel data still allocated after the state and every context are gone ({rep:?})")));
     }
     let events = std::mem::take(&mut sh.lock().unwrap().mon.events);
     (o, events)
